@@ -782,9 +782,7 @@ class Tr:
     # Bodies with a single well-typed shape stay pinned textually; everything with a choice in it is translated:
     # the table memoize_register's default searches, the names each arm of valid_registers iterates, how many names an
     # arm of CpuRegisters::next consumes and the value it pairs with the name.
-    EXPECTED_DEFAULTS = {
-        "registers": "self.valid_registers(&MinidumpContextValidity::All)",
-    }
+    EXPECTED_DEFAULTS = {}
 
     def check_defaults(self):
         s = self.ctx_src
@@ -826,6 +824,17 @@ class Tr:
         wv = "context.rs trait CpuContext valid_registers"
         self.iter_all = self.names_src(mm.group(1), wv + " (All arm)", False)
         self.iter_some = self.names_src(mm.group(2), wv + " (Some arm)", True)
+        # registers(): the call `self.valid_registers(&MinidumpContextValidity::All)`, or the iterator built directly
+        got = fns.get("registers")
+        body = norm(got[1]) if got else ""
+        dm = re.fullmatch(r"CpuRegisters \{ regs: (.+), context: self,? \}", body)
+        if body == "self.valid_registers(&MinidumpContextValidity::All)":
+            self.regs_direct = None
+        elif dm:
+            self.regs_direct = self.names_src(dm.group(1), "context.rs trait CpuContext registers", False)
+        else:
+            die("context.rs: default body of CpuContext::registers is neither self.valid_registers(&MinidumpContextValidity::All) nor "
+                "CpuRegisters { regs: CpuRegistersInner::Slice(<T>::REGISTERS[a..b].iter()), context: self }: %r" % body)
         for name, want in self.EXPECTED_DEFAULTS.items():
             got = fns.get(name)
             if not got or norm(got[1]) != want:
@@ -1102,6 +1111,7 @@ class Tr:
                     return x
                 return ("list", regs_of(x[1], "valid_registers")[x[2]:x[3]], "%s::REGISTERS[%s..%s]" % (x[1] or cname, "" if x[2] is None else x[2], "" if x[3] is None else x[3]))
             t["iter_all"], t["iter_some"] = src(self.iter_all), src(self.iter_some)
+            t["regs_direct"] = None if self.regs_direct is None else src(self.regs_direct)
             t["next_skip"] = self.next_skip
             t["next_val"] = self.accessor(self.next_val_text.replace("self.context.", "ctx."), cname,
                                           "context.rs CpuRegisters::next (the value paired with a name), instantiated at " + cname, recv="ctx", want=t["width"])
@@ -1291,6 +1301,8 @@ def emit(tables):
                  % tuple("the validity set" if x[0] == "set" else x[2] for x in (t["iter_all"], t["iter_some"])))
         o.append("  ct_iter_all := %s;" % coq_src(t["iter_all"]))
         o.append("  ct_iter_some := %s;" % coq_src(t["iter_some"]))
+        o.append("  (* CpuContext::registers: %s *)" % ("self.valid_registers(&All)" if t["regs_direct"] is None else "builds the iterator itself over " + t["regs_direct"][2]))
+        o.append("  ct_regs_direct := %s;" % ("None" if t["regs_direct"] is None else "(Some %s)" % coq_src(t["regs_direct"])))
         o.append("  (* CpuRegisters::next: Slice arm skips %d, Set arm skips %d, yields (reg, %s) *)" % (t["next_skip"][0], t["next_skip"][1], show_aexp(t["next_val"])))
         o.append("  ct_next_slice := %d; ct_next_set := %d;" % t["next_skip"])
         o.append("  ct_next_val := %s;" % coq_aexp(t["next_val"]))
